@@ -37,6 +37,13 @@ def gen_ops(tier, rng):
         d = rng.randint(2, 12)
         order = rng.sample(range(d), rng.randint(0, d - 1))
         ops.append((f"idx - {d} {rng.randint(1,4)} {rng.choice(SIZES_SMALL)} {rng.randrange(1, 1<<30)} {lst(order)}", {"cat": "idx-partial", "d": d}))
+    # EncodeIdx through the generated kernels with more than 10 parity shards whose last group of ten holds 1..3 of them (the
+    # 64-byte and the 32-byte kernels meet), sizes with every tail class, GFNI on and off, one and several goroutines
+    for (d, p) in [(4, 11), (3, 13), (2, 23), (12, 12), (4, 14), (2, 10)]:
+        for o in ["-", "gfni-,avxgfni-", "gfni-,avxgfni-,g=1", "gfni-,avxgfni-,avx2-", "gfni-,avxgfni-,ms=2048"]:
+            for size in [4096 + 40, 4096 + 32, 8192 + 63, 8192, 30000 + 1064 % 64 + 32]:
+                order = list(range(d)); rng.shuffle(order)
+                ops.append((f"idx {o} {d} {p} {size} {rng.randrange(1, 1<<30)} {lst(order)}", {"cat": "idx-groups", "d": max(d, 2)}))
     # invalid idx / parity mismatch
     ops.append(("idx - 4 2 10 5 4", {"cat": "idx-badidx", "d": 4}))
     # EncodeIdx with a data shard whose length differs from the parity shards: ErrShardSize, parity untouched (both the
